@@ -422,6 +422,15 @@ class Canon:
                 (self.inline_state or self.snapshot_free(n["lid"], d)):
             # (a let whose initialiser reads state mutated before the use is a snapshot: not inlined)
             return self.c(d[1], depth + 1) + d[2]
+        if stable and depth < self.max_depth and not d[2]:
+            mi = peel(d[1])
+            if mi.get("k") == "Match":
+                stay = [a for a in mi["arms"] if a["body"].get("ty") != "!"]
+                if len(stay) == 1 and len(mi["arms"]) >= 2 and not stay[0].get("guard"):
+                    bexp = peel(stay[0]["body"])
+                    if bexp.get("k") == "Local" and bexp["lid"] in self.defs and self.defs[bexp["lid"]][0] == "let" and \
+                            self.defs[bexp["lid"]][1] is mi["scrut"]:
+                        return self.c(mi, depth + 1)          # `let v = match x { Ok(v) => v, .. leave }`: v is x's payload
         key = n["lid"]
         if key not in self._names:
             self._names[key] = None  # recursion guard
@@ -768,7 +777,8 @@ class Index:
         if not exits or not stays:
             return out
         for a in exits:
-            raw = self.arm_cond(m, a)
+            acs_ = self.arm_conds(m, a)
+            raw = " && ".join(acs_) if acs_ != [self.arm_cond(m, a)] else self.arm_cond(m, a)
             if raw == "true":
                 raw = "match %s => _" % self.canon(m["scrut"])        # the catch-all arm
             if a.get("guard"):
@@ -776,7 +786,14 @@ class Index:
             after = "!(%s)" % raw
             if len(stays) == 1 and len(exits) == 1 and not a.get("guard") and self.pat_class(stays[0]["pat"]) and self.pat_class(a["pat"]):
                 after = self.arm_cond(m, stays[0])
-            out.append({"cond": after, "raw": raw, "kind": "arm-exit", "node": m, "errs": self.error_of(a["body"]), "arm": a})
+            # earlier arms that could also apply matter for when this arm is the one taken
+            prevs = []
+            for prev in arms[:arms.index(a)]:
+                pcs_ = self.arm_conds(m, prev)
+                if not self._disjoint(pcs_, acs_) and not (pcs_ == ["true"] and not prev.get("guard")):
+                    prevs.append((pcs_, prev.get("guard")))
+            out.append({"cond": after, "raw": raw, "kind": "arm-exit", "node": m, "errs": self.error_of(a["body"]), "arm": a,
+                        "exit_pats": acs_, "exit_guard": a.get("guard"), "exit_prevs": prevs})
         return out
 
     def err_valued(self, n):
@@ -888,6 +905,44 @@ class Index:
             return "%s(%s)" % (cls if positive else self.COMPLEMENT[cls], x)
         return "%slet %s = %s" % ("" if positive else "!", H.show_pat(pat), x)
 
+    def arm_conds(self, m, a):
+        """the arm's pattern as a conjunction of conditions on the scrutinee: `Ok(0)` is ok(x) and (0 == x@Ok.0),
+        a literal `0` is (0 == x); everything else as arm_cond"""
+        pk = a["pat"]
+        while pk.get("k") in ("RefPat", "DerefPat"):
+            pk = pk["sub"]
+        scr = self.canon(m["scrut"])
+
+        def lit_of(p_):
+            while p_.get("k") in ("RefPat", "DerefPat"):
+                p_ = p_["sub"]
+            if p_.get("k") == "ExprPat":
+                v = H.lit_val(p_["e"])
+                if isinstance(v, int) and not isinstance(v, bool):
+                    return str(v)
+            return None
+        lv = lit_of(pk)
+        if lv is not None:
+            return ["(%s == %s)" % tuple(sorted((lv, scr)))]
+        if pk.get("k") == "TupleStruct" and len(pk["pats"]) == 1 and lit_of(pk["pats"][0]) is not None:
+            path = H.strip_generics((pk.get("path") or {}).get("path") or "")
+            for suffix, cls in (("Option::Some", "some"), ("Result::Ok", "ok"), ("Result::Err", "err")):
+                if path.endswith(suffix):
+                    member = "%s@%s.0" % (scr, "::".join(path.split("::")[-2:]))
+                    return ["%s(%s)" % (cls, scr), "(%s == %s)" % tuple(sorted((lit_of(pk["pats"][0]), member)))]
+        return [self.arm_cond(m, a)]
+
+    @staticmethod
+    def _disjoint(c1, c2):
+        """two arm conditions that can never hold together (different Option/Result variants)"""
+        pairs = {("some", "none"), ("none", "some"), ("ok", "err"), ("err", "ok")}
+        for a_ in c1:
+            for b_ in c2:
+                ka, kb = a_.split("(")[0], b_.split("(")[0]
+                if (ka, kb) in pairs and a_[len(ka):] == b_[len(kb):]:
+                    return True
+        return False
+
     def arm_cond(self, m, a):
         pk = a["pat"]
         while pk.get("k") in ("RefPat", "DerefPat"):
@@ -942,19 +997,23 @@ class Index:
             elif k == "Match":
                 for i_, a in enumerate(anc["arms"]):
                     if a["body"] is child or self.contains(a["body"], child):
-                        ac = self.arm_cond(anc, a)
-                        if ac != "true":
-                            out.append({"cond": ac, "kind": "arm", "node": anc, "errs": []})
+                        acs = self.arm_conds(anc, a)
+                        for ac in acs:
+                            if ac != "true":
+                                out.append({"cond": ac, "kind": "arm", "node": anc, "errs": []})
                         if a.get("guard"):
                             out.append({"cond": self.cond(a["guard"]), "kind": "arm-guard", "node": anc, "errs": [], "expr": a["guard"], "pos": True})
-                        # arms are tried in order: no earlier (pattern, guard) applied.  Recorded only where it says
-                        # something the arm's own pattern does not (an earlier guarded arm, or this arm irrefutable)
+                        # arms are tried in order: no earlier (pattern, guard) applied — recorded unless the earlier
+                        # pattern can never hold together with this one (another Option/Result variant)
                         for prev in anc["arms"][:i_]:
-                            pc_ = self.arm_cond(anc, prev)
-                            if prev.get("guard") or ac == "true":
-                                txt = pc_ + (" && " + self.cond(prev["guard"]) if prev.get("guard") else "")
-                                out.append({"cond": "!(%s)" % txt, "kind": "arm-prev", "node": anc, "errs": [], "prev_pat": pc_,
-                                            "prev_guard": prev.get("guard")})
+                            pcs_ = self.arm_conds(anc, prev)
+                            if self._disjoint(pcs_, acs):
+                                continue
+                            if pcs_ == ["true"] and not prev.get("guard"):
+                                continue
+                            txt = " && ".join(pcs_) + (" && " + self.cond(prev["guard"]) if prev.get("guard") else "")
+                            out.append({"cond": "!(%s)" % txt, "kind": "arm-prev", "node": anc, "errs": [], "prev_pat": " && ".join(pcs_),
+                                        "prev_pats": pcs_, "prev_guard": prev.get("guard")})
             elif k == "LetStmt" and anc.get("els") is not None and (child is anc["els"] or self.contains(anc["els"], child)):
                 # inside the `else` of a let-else: the pattern did not match
                 out.append({"cond": self.let_cond(anc["pat"], anc["init"], False), "kind": "else", "node": anc, "errs": []})
